@@ -42,6 +42,8 @@ func buildStruct(fs []sfield) reflect.Type {
 			sf.Tag = `json:",embed"`
 		} else {
 			switch f.Kind {
+			case "zeroer":
+				sf.Type = reflect.TypeOf(zeroer(0))
 			case "str":
 				sf.Type = reflect.TypeOf("")
 			case "slice":
@@ -78,6 +80,11 @@ func buildStruct(fs []sfield) reflect.Type {
 	}
 	return reflect.StructOf(out)
 }
+
+// zeroer reports itself zero exactly when it is -1 (so the method disagrees with the Go zero value)
+type zeroer int
+
+func (z zeroer) IsZero() bool { return z == -1 }
 
 func pathCode(path []int) int {
 	n := 0
@@ -117,6 +124,13 @@ func allLeafPaths(fs []sfield, prefix []int, fn func(path []int, f sfield)) {
 
 func setLeaf(v reflect.Value, kind, class string, code int) {
 	switch kind {
+	case "zeroer":
+		switch class {
+		case "full":
+			v.SetInt(int64(code))
+		case "empty":
+			v.SetInt(-1)
+		}
 	case "str":
 		if class == "full" {
 			v.SetString("s" + strconv.Itoa(code))
@@ -137,6 +151,14 @@ func setLeaf(v reflect.Value, kind, class string, code int) {
 
 func leafText(kind string, str bool, class string, code int) string {
 	switch kind {
+	case "zeroer":
+		switch class {
+		case "full":
+			return strconv.Itoa(code)
+		case "empty":
+			return "-1"
+		}
+		return "0"
 	case "str":
 		if class == "full" {
 			return `"s` + strconv.Itoa(code) + `"`
